@@ -1,5 +1,5 @@
 (* Harness access to the declarative specifications (Spec/). *)
-From DepsDev Require Import Lib.Base Lib.Sx Spec.SemverSpec.
+From DepsDev Require Import Lib.Base Lib.Sx Spec.SemverSpec Spec.NuGetSpec.
 Local Open Scope Z_scope.
 
 Definition run_Spec (kind : bytes) (a : sx) : option sx :=
@@ -14,5 +14,20 @@ Definition run_Spec (kind : bytes) (a : sx) : option sx :=
   else if bytes_eqb kind [115;112;101;99;95;115;101;109;118;101;114;95;111;107]%N (* spec_semver_ok *) then
     Some (match a with
           | SB x => sx_bool (match parse_strict x with Some _ => true | None => false end)
+          | _ => badcase end)
+  else if bytes_eqb kind [115;112;101;99;95;110;117;103;101;116;95;99;109;112]%N (* spec_nuget_cmp *) then
+    Some (match a with
+          | SL [SB x; SB y] =>
+              match nuget_compare_strings x y with
+              | Some c => SL [SB sym_ok; SI c]
+              | None => SL [SB sym_err]
+              end
+          | _ => badcase end)
+  else if bytes_eqb kind [115;112;101;99;95;110;117;103;101;116;95;110;111;114;109]%N (* spec_nuget_norm: normalised string of an accepted version *) then
+    Some (match a with
+          | SB x => match parse_nuget x with
+                    | Some v => SL [SB sym_ok; SB (nuget_normalized v)]
+                    | None => SL [SB sym_err]
+                    end
           | _ => badcase end)
   else None.
